@@ -15,6 +15,34 @@ def _rec(case):
     return ss.record_bp(case, want=("all",), all_limit=_LIM["all_limit"], perm_limit=_LIM["perm_limit"])
 
 
+def bound_cases():
+    """Structures whose conflict group has exactly 8 stems (the statement's bound), with small
+    maximum degree so that TLC can still enumerate StableSet: a chain, a caterpillar, a tree."""
+    out = []
+    # chain: stem k crosses stem k+1 only
+    chain = [[1 + 3 * k, 5 + 3 * k] for k in range(8)]
+    out.append((max(j for _, j in chain) + 1, chain))
+    # two-pair stems in a chain, shifted
+    c2 = []
+    for k in range(8):
+        a, b = 2 + 6 * k, 11 + 6 * k
+        c2 += [[a, b], [a + 1, b - 1]]
+    out.append((max(j for _, j in c2) + 2, c2))
+    # one long stem crossed by three hairpins-with-crossers: degree 3 hub, 8 stems in the group
+    hub = [[1, 30], [3, 32], [6, 34], [9, 36], [12, 38], [15, 40], [18, 42], [21, 44]]
+    hub = [[1, 20], [3, 8], [6, 24], [10, 14], [12, 28], [16, 32], [22, 36], [30, 40]]
+    out.append((41, hub))
+    cases = []
+    for k, (n, pairs) in enumerate(out):
+        cases.append({"id": f"b8-{k}", "kind": "bp", "n": n, "pairs": sorted(pairs),
+                      "seq": [ss.LETTERS[(i + k) % 4] for i in range(n)]})
+    return [c for c in cases if ss.max_component(c["pairs"])[0] == 8]
+
+
+def _rec8(case):
+    return ss.record_bp(case, want=("all",), all_limit=8, perm_limit=50000)
+
+
 def run(tier):
     t = TIERS[tier]
     _LIM.update(all_limit=t["all_limit"], perm_limit=t["perm_limit"])
@@ -28,6 +56,11 @@ def run(tier):
         rnd = ss.knotted_cases(t["rnd"], lib.seed() + 5, tag="g")
         cases = ex + rnd
         rec = [c for c in lib.pmap(_rec, cases)]
+        b8 = bound_cases()
+        if len(b8) < 2:
+            raise lib.MachineryError("bound cases with an 8-stem conflict group could not be built")
+        rec += lib.pmap(_rec8, b8)
+        cases = cases + b8
         domain_check([c for c in rec if c["id"].startswith("m")], t["maxn"], sc)
         called = [c for c in rec if c["all_called"]]
         skipped = len(rec) - len(called)
